@@ -249,6 +249,27 @@ fn workload(m: &mut Mon, bits: usize) {
             }
         }
     }
+    // the largest power of each base that fits, and its neighbours: the estimate is most likely to be
+    // off exactly there (the next power overflows)
+    for bsmall in (2u64..=67).chain([100, 109, 255, 256, 1000, 65535, 65536, 1 << 32, u64::MAX]) {
+        if !m.keep() {
+            continue;
+        }
+        let bb = BigUint::from(bsmall);
+        if !big::fits(&bb, bits) {
+            continue;
+        }
+        let mut p = BigUint::one();
+        while big::fits(&(&p * &bb), bits) {
+            p *= &bb;
+        }
+        let b = big::limbs(&bb, l);
+        for v in [&p - 1u8, p.clone(), &p + 1u8, &p / &bb, (&p / &bb) - BigUint::from(u8::from(p > bb))] {
+            if let Some(v) = fit(&v, bits) {
+                m.case("log", bits, vec![au(&v), au(&b)]);
+            }
+        }
+    }
     for v in &bd {
         if !m.keep() {
             continue;
